@@ -100,6 +100,7 @@ type Calc struct {
 	Chunks  []int   `json:"chunks"`         // sizes returned by successive Reads (cycled); 0 = zero-length read
 	Outcome int     `json:"outcome"`        // 0 complete, 1 reader fails at byte At, 2 context cancelled at byte At
 	At      int     `json:"at"`             // byte offset of the fault
+	ErrKind int     `json:"error_kind,omitempty"` // outcome 1: 0 bespoke error, 1 io.ErrUnexpectedEOF, 2 an error wrapping io.EOF, 3 commonerrors.ErrEOF, 4 os.ErrClosed
 	Eager   bool    `json:"eager_eof"`      // reader returns io.EOF together with the last bytes
 	WT      bool    `json:"with_writer_to"` // reader also implements io.WriterTo
 }
@@ -127,6 +128,16 @@ func (r *scriptReader) Read(p []byte) (int, error) {
 	r.reads++
 	if r.calc.Outcome != 0 && r.pos >= r.calc.At {
 		if r.calc.Outcome == 1 {
+			switch r.calc.ErrKind {
+			case 1:
+				return 0, io.ErrUnexpectedEOF
+			case 2:
+				return 0, fmt.Errorf("stream broke: %w", io.EOF)
+			case 3:
+				return 0, commonerrors.ErrEOF
+			case 4:
+				return 0, os.ErrClosed
+			}
 			return 0, errInjected
 		}
 		r.cancel()
@@ -249,6 +260,9 @@ func genCalc(t *rapid.T, label string, allowFault bool) Calc {
 		c.Outcome = rapid.IntRange(0, 2).Draw(t, label+"-outcome")
 		if c.Outcome != 0 {
 			c.At = rapid.IntRange(0, c.Content.Len).Draw(t, label+"-at")
+		}
+		if c.Outcome == 1 {
+			c.ErrKind = rapid.IntRange(0, 4).Draw(t, label+"-errkind")
 		}
 	}
 	return c
